@@ -5,6 +5,7 @@ import (
 	"context"
 	"errors"
 	"path"
+	"strings"
 	"time"
 
 	"github.com/hack-pad/hackpadfs"
@@ -256,6 +257,10 @@ func (fs *FS) Remove(name string) error {
 	if err != nil {
 		return fs.wrapperErr("remove", name, err)
 	}
+	if name == "." {
+		// the root directory always exists
+		return fs.wrapperErr("remove", name, hackpadfs.ErrInvalid)
+	}
 
 	if file.Mode().IsDir() {
 		dirNames, err := file.ReadDirNames()
@@ -274,9 +279,20 @@ func (fs *FS) Rename(oldname, newname string) error {
 	if !hackpadfs.ValidPath(oldname) || !hackpadfs.ValidPath(newname) {
 		return &hackpadfs.LinkError{Op: "rename", Old: oldname, New: newname, Err: hackpadfs.ErrInvalid}
 	}
+	if oldname == "." || newname == "." || strings.HasPrefix(newname, oldname+"/") {
+		// the root directory cannot be moved or replaced, and a directory cannot be moved into itself
+		return &hackpadfs.LinkError{Op: "rename", Old: oldname, New: newname, Err: hackpadfs.ErrInvalid}
+	}
 	oldFile, err := fs.getFile(oldname)
 	if err != nil {
 		return &hackpadfs.LinkError{Op: "rename", Old: oldname, New: newname, Err: hackpadfs.ErrNotExist}
+	}
+	newParent, err := fs.getFile(path.Dir(newname))
+	if err != nil {
+		return linkErr("rename", oldname, newname, err)
+	}
+	if !newParent.info().IsDir() {
+		return linkErr("rename", oldname, newname, hackpadfs.ErrNotDir)
 	}
 	oldInfo, err := oldFile.Stat()
 	if err != nil {
